@@ -5,6 +5,7 @@ import (
 	"go/ast"
 	"go/token"
 	"go/types"
+	"os"
 	"sort"
 	"strings"
 
@@ -420,6 +421,39 @@ func evalClosureFieldWrites(npkg *packages.Package) ([]evalFieldWrite, map[strin
 								work = append(work, h)
 							}
 						}
+						// recv.f.Store(…), recv.buf.WriteString(…): a mutating method of a container held in an own field
+						if in, ok := ast.Unparen(se.X).(*ast.SelectorExpr); ok {
+							if id, ok := ast.Unparen(in.X).(*ast.Ident); ok && info.Uses[id] == recv {
+								if t := info.TypeOf(in); t != nil && mutatingContainerCall(t, se.Sel.Name) {
+									out = append(out, evalFieldWrite{tn, in.Sel.Name, t, x.Pos()})
+								}
+							}
+						}
+					}
+					// append(recv.f, …) / copy(recv.f, …) / delete(recv.f, k) with the result dropped elsewhere are
+					// assignments or builtins on the field
+					if id, ok := ast.Unparen(x.Fun).(*ast.Ident); ok && len(x.Args) > 0 {
+						if b, ok := info.Uses[id].(*types.Builtin); ok && (b.Name() == "delete" || b.Name() == "clear" || b.Name() == "copy") {
+							if in, ok := ast.Unparen(x.Args[0]).(*ast.SelectorExpr); ok {
+								if rid, ok := ast.Unparen(in.X).(*ast.Ident); ok && info.Uses[rid] == recv {
+									if t := info.TypeOf(in); t != nil {
+										out = append(out, evalFieldWrite{tn, in.Sel.Name, t, x.Pos()})
+									}
+								}
+							}
+						}
+					}
+				case *ast.IncDecStmt:
+					base := ast.Unparen(x.X)
+					if ix, ok := base.(*ast.IndexExpr); ok {
+						base = ast.Unparen(ix.X)
+					}
+					if se, ok := base.(*ast.SelectorExpr); ok {
+						if id, ok := ast.Unparen(se.X).(*ast.Ident); ok && info.Uses[id] == recv {
+							if t := info.TypeOf(se); t != nil {
+								out = append(out, evalFieldWrite{tn, se.Sel.Name, t, x.Pos()})
+							}
+						}
 					}
 				case *ast.AssignStmt:
 					for _, l := range x.Lhs {
@@ -458,6 +492,11 @@ func c19Site(r *Run) {
 		return isNamed(t, modPath+"/data", "Property") || isNamed(t, modPath+"/data", "Types")
 	}
 	writes, examined := evalClosureFieldWrites(npkg)
+	if os.Getenv("DUMPWRITES") != "" {
+		for _, w := range writes {
+			fmt.Fprintf(os.Stderr, "EVALWRITE %s.%s %s %s\n", w.typeName, w.field, types.TypeString(w.ftype, func(p *types.Package) string { return p.Name() }), r.pos(w.pos))
+		}
+	}
 	bad := map[string]bool{}
 	for _, w := range writes {
 		if isDecl(w.ftype) {
@@ -540,6 +579,36 @@ func freshMapExpr(info *types.Info, p *packages.Package, e ast.Expr, depth int) 
 				return true
 			})
 			return all && n > 0
+		}
+	}
+	return false
+}
+
+// mutatingContainerCall: method name of a standard mutable container (sync.Map, sync.Pool,
+// bytes.Buffer, strings.Builder, atomic values) that changes it.
+func mutatingContainerCall(t types.Type, method string) bool {
+	if pt, ok := t.(*types.Pointer); ok {
+		t = pt.Elem()
+	}
+	nt := namedOf(t)
+	if nt == nil || nt.Obj().Pkg() == nil {
+		return false
+	}
+	switch nt.Obj().Pkg().Path() {
+	case "sync":
+		switch method {
+		case "Store", "LoadOrStore", "LoadAndDelete", "Delete", "Swap", "CompareAndSwap", "Put", "Range":
+			return method != "Range"
+		}
+	case "sync/atomic":
+		switch method {
+		case "Store", "Swap", "CompareAndSwap", "Add":
+			return true
+		}
+	case "bytes", "strings":
+		switch method {
+		case "Write", "WriteString", "WriteByte", "WriteRune", "Reset", "Grow", "Truncate":
+			return true
 		}
 	}
 	return false
